@@ -35,4 +35,15 @@ end
 def EnvExtends (penv env₁ : List (String × String)) : Prop :=
   (penv.map (·.1)).Nodup ∧ (env₁.map (·.1)).Nodup ∧ ∀ name v, (name, v) ∈ penv → env₁.lookup name = some v
 
+/-- No empty-but-non-nil container INSIDE the step's matrix: `setup` is not an empty non-nil map, no dimension
+    has an empty non-nil value list, no adjustment has an empty non-nil `with` map.
+    `EmptyToNilMap/Slice/Ptr` normalise only the outermost container of each signed field, so inside the matrix
+    the payload distinguishes `{}`/`[]` from `null`, which the C09 normal form (`normMatrix`) identifies.
+    Needed by `C02_signed_fields_see_normal_form_only` (false without it); NOT needed by the round-trip
+    theorems, because the JSON round trip keeps these containers exactly. -/
+def MatrixInnerNonEmpty (c : CommandStep) : Prop :=
+  ∀ m, c.matrix = some m →
+    m.setup ≠ some [] ∧ (∀ kv ∈ m.setup.getD [], kv.2 ≠ some []) ∧
+    (∀ a, some a ∈ m.adjustments.getD [] → a.with_ ≠ some [])
+
 end GoPipeline.SignedRT
